@@ -77,16 +77,26 @@ def run(ctx):
     # detailed placement part
     dres = dc.run_detailed(ctx, n // 3 if ctx.quick else n // 2, seed=s + 20, prop="C04")
     ofail += dres["orient_fail"]
+    # the circuit exported after swap / insert sequences: proved checker orient_okb on the C++ output and exact tie of
+    # DetailedExport.write_back (theorems c04_write_back_orient_ok*)
+    from checks import c02_export as ce
+    eres = ce.run_export(ctx, 1500 if ctx.quick else 40000, seed=s + 81)
+    ofail += eres["impl_orient"][:2]
     for l, i, why in ofail[:3]:
         ctx.violation("/repo violates C04: " + why, {"case": l, "implementation_output": i, "why": why})
     if not ofail:
         if mism:
             ctx.violation("correspondence Legalizer.v <-> C++ broken (%d of %d cases differ); no circuit violating C04 found" % (len(mism), len(run.lines)),
                           {"broken": "correspondence of coq/Legalizer.v / Orient.v", "first_difference": {"case": mism[0][0], "implementation": mism[0][1], "model": mism[0][2]}}, found_input=False)
+        if eres["mismatch"]:
+            ctx.violation("correspondence DetailedExport.v write_back <-> DetailedPlacement::exportPlacement broken (%d of %d runs differ); no circuit violating C04 found"
+                          % (len(eres["mismatch"]), eres["runs"]),
+                          {"broken": "correspondence of coq/DetailedExport.v (theorems c04_write_back_orient_ok, c04_write_back_orient_ok_optimiser_moves)",
+                           "first_difference": {"case": eres["mismatch"][0][0], "implementation": str(eres["mismatch"][0][1])[:2000], "model": str(eres["mismatch"][0][2])[:2000]}}, found_input=False)
         if not proof_ok:
             ctx.violation("proof obligations of Properties_C04.v do not check", {"broken": "Properties_C04.v", "detail": proof}, found_input=False)
     cov = dict(proof)
-    cov.update({"trusted_base": common.TRUSTED_BASE,
+    cov.update({"export_tie": ce.summary(eres), "trusted_base": common.TRUSTED_BASE,
                 "evaluations": len(run.lines) + len(tl) + dres["runs"], "distinct_nontrivial": len(nontriv) + dres["nontrivial"],
                 "rule": "tables: all 5 polarities x 10 enum values, exhaustive; legalization: random circuits of the C01 generator (every polarity on 1-3 row cells, "
                         "alternating/uniform/irregular N/S/FN/FS rows); detailed placement: orient_okb at every Detailed callback and at return. "
